@@ -26,7 +26,8 @@ RULE = ('Hypothesis builtin sweep: every name in the live FUNCTIONS table called
         'shape tables (4/5) or an untyped hostile pool (1/5): scalars, nested lists/tuples/dicts, lambdas, builtins as '
         'values, attribute-/format-/path-like strings; one argument may itself be another builtin call; embedded in 10 '
         'program forms (store, index, call the result, pipe, map body...); 1 call in 5 is a well-formed call with one argument '
-        'swapped for a callable and up to two extra arguments; the shared parser earlier served failing calls that bound host '
+        'swapped for a callable and up to two extra arguments; a probe matrix per drawn builtin and well-formed argument list: a program '
+        'lambda at EVERY argument position x 18 tails of optional/extra arguments (flags, counts, None, codec); the shared parser earlier served failing calls that bound host '
         'callables returning modules (fetch9), which later programs try to reach; 1 in 12 evaluated on a fresh worker thread with '
         'the parser built on the main thread. Plus typed programs. Host names hold plain data '
         'only. Oracle: every node result, the final result and final names contain only None/bool/int/float/Decimal/str/'
@@ -309,16 +310,61 @@ def sweep_cases(draw, table):
     return case
 
 
+PROBE_EXTRAS = [(), ('',), ('i',), (0,), (1,), (-1,), (None,), (-1, ''), (-1, 'i'), (1, ''), (0, 's'), (2, 'm'), ('', ''), ('i', 1), (-1, None),
+                (1, 1), ('utf-8',), ('', 'utf-8')]
+
+
+@hst.composite
+def probe_cases(draw, names):
+    """for every builtin of this job's slice of the table (each job owns one: no builtin is left to chance)"""
+    return [draw(probe_case([n])) for n in names]
+
+
+@hst.composite
+def probe_case(draw, table):
+    """one builtin with well-formed arguments; the check then swaps EVERY argument position for a program lambda, with every
+    PROBE_EXTRAS tail of optional / extra arguments (a builtin must not hand anything but plain data to a program callback,
+    whatever optional parameters it has or grows)"""
+    a = shapes.Args(draw)
+    name = a.pick([t for t in table if shapes.SHAPES.get(t)])
+    shp = shapes.SHAPES[name]
+    shape = max(shp, key=len) if a.n(3) else a.pick(shp)
+    args = [a.value(x) for x in shape]
+    if len(args) >= 2 and isinstance(args[0], str) and isinstance(args[1], str) and a.n(3):
+        args[1] = args[0][:1 + a.n(3)] if args[0] else ''
+    lam = a.pick(shapes.LAMBDA1 + shapes.LAMBDA2)
+    return {'builtin': name, 'args': core.enc(args), 'lam': lam}
+
+
+def probe_sources(case):
+    args = core.dec(case['args'])
+    name = case['builtin']
+    for pos in range(len(args)):
+        for tail in PROBE_EXTRAS:
+            names, parts = {}, []
+            for i, v in enumerate(list(args) + list(tail)):
+                if i == pos:
+                    parts.append('(' + case['lam'] + ')')
+                elif shapes.is_marker(v):
+                    parts.append('(' + v[1] + ')' if v[0] == 'lambda' else v[1])
+                else:
+                    k = f'a{len(names)}'
+                    names[k] = v
+                    parts.append(k)
+            yield f'{name}({", ".join(parts)})', names
+
+
 def jobs(tier, seed):
     per = 1500 if tier == 'quick' else 70000
     js = [('sweep', core.derive_seed(seed, 'c02', i), per) for i in range(15)]
+    js += [('probe', core.derive_seed(seed, 'c02p', i), 12 if tier == 'quick' else 400, i) for i in range(8)]
     js.append(('typed', core.derive_seed(seed, 'c02t'), 3000 if tier == 'quick' else 60000))
     js.append(('cold', 0, 0))
     return js
 
 
 def run_job(job):
-    kind, seed, n = job
+    kind, seed, n = job[:3]
     st = Stats()
     if kind == 'cold':
         fails, d = cold_start()
@@ -354,6 +400,25 @@ def run_job(job):
         hyp.drive(sweep_cases(table), check, st, seed=seed, max_examples=n)
         st.extra['per_builtin_calls'] = calls
         st.extra['per_builtin_normal_returns'] = oks
+    elif kind == 'probe':
+        mine = [t for t in table if shapes.SHAPES.get(t)][job[3]::8]
+
+        def check(pcs):
+            fails, okc, nsrc = [], 0, 0
+            for pc in pcs:
+                for src, names in probe_sources(pc):
+                    case = {'src': src, 'names': core.enc(names), 'builtin': pc['builtin']}
+                    f, info = run_source(src, copy.deepcopy(names), case)
+                    fails += f
+                    nsrc += 1
+                    okc += pc['builtin'] in info['ok_builtins']
+            st.add('probe_calls', nsrc)
+            st.add('probe_calls_returned_normally', okc)
+            return hyp.Result(fails, okc > 0, ['probe:callable-at-every-position'] + ['probe:' + pc['builtin'] for pc in pcs],
+                              key=repr([(pc['builtin'], pc['args'], pc['lam']) for pc in pcs]),
+                              sample={'probed': [[pc['builtin'], pc['args'], pc['lam']] for pc in pcs][:3], 'calls': nsrc, 'returned_normally': okc})
+
+        hyp.drive(probe_cases(mine), check, st, seed=seed, max_examples=n)
     else:
         def check(c):
             stmts, env, labels = c
